@@ -2,7 +2,7 @@
    Everything here is executable Gallina; no proofs. *)
 From Coq Require Import List NArith ZArith String Bool.
 Import ListNotations.
-From UV Require Import Py.Val Py.Str Py.Utf8 Py.Regex Py.UrlLib Gen.Patterns Ural.TrieDict Ural.Utils Ural.HostnameTrieSet Ural.SuffixTrie Ural.Tld Proofs.SuffixTrieFacts Py.Pct Ural.Quote Spec.C14 Gen.Tables Ural.FormatUrl Ural.InferRedirection Ural.Lru Ural.IsUrl Ural.Predicates Ural.Canonicalize Ural.Normalize Ural.Html Ural.Platforms Ural.LruVariants.
+From UV Require Import Py.Val Py.Str Py.Utf8 Py.Regex Py.UrlLib Gen.Patterns Ural.TrieDict Ural.Utils Ural.HostnameTrieSet Ural.SuffixTrie Ural.Tld Proofs.SuffixTrieFacts Py.Pct Ural.Quote Spec.C14 Gen.Tables Ural.FormatUrl Ural.InferRedirection Ural.Lru Ural.IsUrl Ural.Predicates Ural.Canonicalize Ural.Normalize Ural.Html Ural.Platforms Ural.LruVariants Ural.NormalizePA.
 Open Scope string_scope.
 
 Definition opt_wrap (o : option val) : val :=
@@ -506,6 +506,23 @@ Definition do_fingerprint (arg : val) : val :=
   | _ => vbad
   end.
 
+(* platform_aware=True: arg: env ((url options strip_suffix) ...) -> (normalize_url fingerprint_url) *)
+Definition do_platform_aware (arg : val) : val :=
+  match arg with
+  | VL [ev; VL cases] =>
+      let e := env_of ev in
+      let t := suffix_trie tt in
+      match hts_build e YOUTUBE_DOMAINS hts_empty with
+      | Ok yt =>
+          VL (map (fun c => match c with
+                            | VL [VS u; ov; VB ss] =>
+                                VL [vres VS (normalize_url_pa e yt (opts_of ov) u); vres VS (fingerprint_url_pa e yt t ss u)]
+                            | _ => vbad end) cases)
+      | Exc x => VErr (lit "TrieBuildFailed")
+      end
+  | _ => vbad
+  end.
+
 (* hostname helpers: arg: env (string ...) ->
    (get_normalized_hostname normalize_hostname get_fingerprinted_hostname(F) (T) fingerprint_hostname(F) (T)) *)
 Definition do_hostnames (arg : val) : val :=
@@ -616,6 +633,7 @@ Definition table : list (str * (val -> val)) :=
     (lit "normalize", do_normalize);
     (lit "fingerprint", do_fingerprint);
     (lit "hostnames", do_hostnames);
+    (lit "platform_aware", do_platform_aware);
     (lit "variant_stems", do_variant_stems);
     (lit "html", do_html);
     (lit "platform", do_platform) ].
